@@ -4,6 +4,7 @@
 import GraphiqModel.Model.StabTableau
 import GraphiqModel.Model.Convert
 import GraphiqModel.Model.CanonCheck
+import GraphiqModel.Model.Echelon
 import Driver.Proto
 import Driver.CmdTab
 namespace Graphiq.CmdStab
@@ -106,9 +107,13 @@ def conv (a : Args) : String :=
 def same (a : Args) : String :=
   s!"ok same={b01 ((stabOf a "a").sameGroup (stabOf a "b"))}"
 
+/-- stab.echelon n= x= z= r=: the executable echelon-form predicate (post-condition proved of the model's `rref`, C03) -/
+def echelon (a : Args) : String := s!"ok ech={b01 (stabOf a).echelonB}"
+
 def dispatch (cmd : String) (a : Args) : Option String :=
   match cmd with
   | "stab.rref" => some (rref a)
+  | "stab.echelon" => some (echelon a)
   | "stab.canon" => some (canon a)
   | "stab.iscanon" => some (iscanon a)
   | "stab.inv" => some (inv a)
